@@ -11,7 +11,7 @@ TInit == RInit /\ WInit /\ cut = Rec[1].cut /\ l = 2 /\ nret = 0 /\ TLCSet(1, 0)
 IntEn == (ph = "len" /\ Len(lenbuf) = 4) \/ (ph = "val" /\ Len(buf) >= need)
 LastK == rsched'[Len(rsched')].k
 Ev(e) == \/ e.ev = "read"    /\ RStart   /\ UNCHANGED nret
-         \/ e.ev = "deliver" /\ RDeliver /\ LastK = e.k /\ UNCHANGED nret
+         \/ e.ev = "deliver" /\ RDeliverK(e.k) /\ LastK = e.k /\ UNCHANGED nret
          \/ e.ev = "intr"    /\ RIntr    /\ UNCHANGED nret
          \/ e.ev = "eof"     /\ REof     /\ UNCHANGED nret
          \/ e.ev = "ret" /\ ph \in {"idle", "dead"} /\ Len(out) = nret + 1 /\ out[Len(out)] = e.r
